@@ -32,6 +32,8 @@ func init() {
 }
 
 func runC16(w *World, r *Report) {
+	hrYAMLTagsMatchFields(w, r, "R3", "lunar/shared-model/config", "ObfuscationExclusions")
+	hrObfuscationHelpers(w, r, "R2")
 	ic := w.Fn(pkgObf, "isCursorInExcludedPath")
 	oj := w.Fn(pkgObf, "Obfuscator.obfuscateJSON")
 	if ic == nil || oj == nil {
